@@ -56,3 +56,178 @@ def install(world):
     world.externs['rdkit'] = Namespace('rdkit', {'Chem': world.externs['rdkit.Chem']})
     world.abstract['Mol'] = {'attr': mol_attr}
     world.abstract['Atom'] = {'attr': atom_attr}
+
+
+# ================================================================================================================
+# richer molecule model for the RING evaluators (C08), the scheme (C02) and the reaction machinery (C16/C17)
+BondTypeCls = BuiltinClass('BondType')
+BondCls = BuiltinClass('Bond')
+RingCls = BuiltinClass('Ring')
+RingInfoCls = BuiltinClass('RingInfo')
+BOND_CODES = {'UNSPECIFIED': 0, 'SINGLE': 1, 'DOUBLE': 2, 'TRIPLE': 3, 'QUADRUPLE': 4, 'AROMATIC': 12, 'DATIVE': 17,
+              'OTHER': 21, 'ZERO': 22}
+Rad = z3.Function('NumRadicalElectrons', IS, IS, IS)
+Chg = z3.Function('FormalCharge', IS, IS, IS)
+AInRing = z3.Function('AtomIsInRing', IS, IS, BS)
+Arom = z3.Function('AtomIsAromatic', IS, IS, BS)
+Deg = z3.Function('Degree', IS, IS, IS)
+BondOf = z3.Function('BondOf', IS, IS, IS, IS)        # (mol, atom, k) -> bond id of the k-th bond of the atom
+BType = z3.Function('BondTypeCode', IS, IS, IS)
+BInRing = z3.Function('BondIsInRing', IS, IS, BS)
+OtherAtom = z3.Function('OtherAtom', IS, IS, IS, IS)  # (mol, bond, atom) -> the other end
+NRings = z3.Function('NumRings', IS, IS)
+RingSize = z3.Function('RingSize', IS, IS, IS)
+RingAtom = z3.Function('RingAtom', IS, IS, IS, IS)
+RingHas = z3.Function('RingHas', IS, IS, IS, BS)
+HasBond = z3.Function('HasBond', IS, IS, IS, BS)
+BondBetween = z3.Function('BondBetween', IS, IS, IS, IS)
+TRUSTED2 = ('rdkit observers are functions of (molecule, atom/bond index): GetNumRadicalElectrons, GetFormalCharge, IsInRing, GetIsAromatic, '
+            'GetBonds (Degree bonds), GetBondType, GetOtherAtom, RingInfo.AtomRings (each ring lists an atom at most once), '
+            'GetBondBetweenAtoms (None if absent); Atom.Match(query atom) is the primitive query of that atom')
+
+
+def bondtype(code):
+    return Obj(BondTypeCls, {'code': code if is_z3(code) else z3.IntVal(code)}, 'fresh')
+
+
+def bondtype_compare(I, op, a, b):
+    import ast
+    if isinstance(a, Obj) and isinstance(b, Obj) and a.cls is BondTypeCls and b.cls is BondTypeCls:
+        c = a.fields['code'] == b.fields['code']
+        if op is ast.Eq:
+            return c
+        if op is ast.NotEq:
+            return z3.Not(c)
+    if (isinstance(a, Obj) and a.cls is BondTypeCls) != (isinstance(b, Obj) and b.cls is BondTypeCls):
+        return op is ast.NotEq
+    return NotImplementedVal
+
+
+def bondtype_attr(I, o, name):
+    if name in ('__str__', 'name'):
+        code = o.fields['code']
+        s = z3.StringVal('OTHER')
+        for nm, c in BOND_CODES.items():
+            s = z3.If(code == c, z3.StringVal(nm), s)
+        return Builtin('BondType.__str__', lambda I_, a, k: s) if name == '__str__' else s
+    return NotImplementedVal
+
+
+def bond(mid, b):
+    return Obj(BondCls, {'mid': mid, 'b': b}, 'param')
+
+
+def atom(mid, idx):
+    return Obj(AtomCls, {'mid': mid, 'idx': idx if is_z3(idx) else z3.IntVal(idx)}, 'param')
+
+
+def bond_attr(I, o, name):
+    mid, b = o.fields['mid'], o.fields['b']
+    if name == 'GetBondType':
+        return Builtin('Bond.GetBondType', lambda I_, a, k: bondtype(BType(mid, b)))
+    if name == 'IsInRing':
+        return Builtin('Bond.IsInRing', lambda I_, a, k: BInRing(mid, b))
+    if name == 'GetOtherAtom':
+        return Builtin('Bond.GetOtherAtom', lambda I_, a, k: atom(mid, OtherAtom(mid, b, a[0].fields['idx'])))
+    return NotImplementedVal
+
+
+def atom_attr2(I, a, name):
+    mid, idx = a.fields['mid'], a.fields['idx']
+    table = {'GetNumRadicalElectrons': lambda: Rad(mid, idx), 'GetFormalCharge': lambda: Chg(mid, idx), 'IsInRing': lambda: AInRing(mid, idx),
+             'GetIsAromatic': lambda: Arom(mid, idx), 'GetIdx': lambda: idx, 'GetAtomicNum': lambda: AtomicNum(mid, idx),
+             'GetOwningMol': lambda: Obj(MolCls, {'mid': mid}, 'param')}
+    if name in table:
+        return Builtin('Atom.' + name, lambda I_, x, k: table[name]())
+    if name == 'GetBonds':
+        def f(I_, x, k):
+            I_.ctx.assume(Deg(mid, idx) >= 0)
+            return SymSeq(Deg(mid, idx), lambda j: bond(mid, BondOf(mid, idx, j)), 'bonds', origin='param')
+        return Builtin('Atom.GetBonds', f)
+    return NotImplementedVal
+
+
+def ring_obj(mid, r):
+    return Obj(RingCls, {'mid': mid, 'r': r}, 'param')
+
+
+def ring_handlers():
+    def contains(I, o, item):
+        return RingHas(o.fields['mid'], o.fields['r'], z3_of(item))
+
+    def symseq(I, o):
+        mid, r = o.fields['mid'], o.fields['r']
+        I.ctx.assume(RingSize(mid, r) >= 3)
+        return SymSeq(RingSize(mid, r), lambda k: RingAtom(mid, r, k), 'ring-atoms', origin='param')
+    return {'contains': contains, 'symseq': symseq}
+
+
+def ring_len(I, o):
+    I.ctx.assume(RingSize(o.fields['mid'], o.fields['r']) >= 3)
+    return RingSize(o.fields['mid'], o.fields['r'])
+
+
+RingCls.len_hook = ring_len
+
+
+def mol_attr2(I, m, name):
+    mid = m.fields['mid']
+    if name == 'GetRingInfo':
+        return Builtin('Mol.GetRingInfo', lambda I_, a, k: Obj(RingInfoCls, {'mid': mid}, 'param'))
+    if name == 'GetAtomWithIdx':
+        return Builtin('Mol.GetAtomWithIdx', lambda I_, a, k: atom(mid, z3_of(a[0])))
+    if name == 'GetBondBetweenAtoms':
+        def f(I_, a, k):
+            i, j = z3_of(a[0]), z3_of(a[1])
+            if I_.ctx.branch(HasBond(mid, i, j)):
+                return bond(mid, BondBetween(mid, i, j))
+            return None
+        return Builtin('Mol.GetBondBetweenAtoms', f)
+    if name == 'GetAtoms':
+        def g(I_, a, k):
+            I_.ctx.assume(NumAtoms(mid) >= 0)
+            return SymSeq(NumAtoms(mid), lambda i: atom(mid, i), 'atoms', origin='param')
+        return Builtin('Mol.GetAtoms', g)
+    return NotImplementedVal
+
+
+def ringinfo_attr(I, o, name):
+    mid = o.fields['mid']
+    if name == 'AtomRings':
+        def f(I_, a, k):
+            I_.ctx.assume(NRings(mid) >= 0)
+            return SymSeq(NRings(mid), lambda r: ring_obj(mid, r), 'rings', origin='param')
+        return Builtin('RingInfo.AtomRings', f)
+    if name == 'NumRings':
+        def g(I_, a, k):
+            I_.ctx.assume(NRings(mid) >= 0)
+            return NRings(mid)
+        return Builtin('RingInfo.NumRings', g)
+    return NotImplementedVal
+
+
+def install2(world):
+    """full model (superset of install)"""
+    install(world)
+    ns = world.externs['rdkit.Chem']
+    bt = Namespace('BondType', {nm: bondtype(c) for nm, c in BOND_CODES.items()})
+    ns.members['BondType'] = bt
+    ns.members['Bond'] = BondCls
+    ns.members['rdchem'] = Namespace('rdchem', {'BondType': bt})
+    world.abstract['BondType'] = {'compare': bondtype_compare, 'attr': bondtype_attr}
+    world.abstract['Bond'] = {'attr': bond_attr}
+    world.abstract['Ring'] = ring_handlers()
+    world.abstract['RingInfo'] = {'attr': ringinfo_attr}
+    old_atom = world.abstract['Atom']['attr']
+    old_mol = world.abstract['Mol']['attr']
+
+    def aa(I, a, name):
+        r = atom_attr2(I, a, name)
+        return r if r is not NotImplementedVal else old_atom(I, a, name)
+
+    def ma(I, m, name):
+        r = mol_attr2(I, m, name)
+        return r if r is not NotImplementedVal else old_mol(I, m, name)
+    world.abstract['Atom'] = {'attr': aa}
+    world.abstract['Mol'] = {'attr': ma}
+    world.hash_keys['BondType'] = lambda I, o: ('bondtype', o.fields['code'])
